@@ -291,10 +291,15 @@ def _worker_init():
         pass
 
 
-def pmap(fn, items, chunksize=None):
+def pmap(fn, items, chunksize=None, on_crash=None):
+    """Map in the worker pool.  If the interpreter of a worker dies, the items are run again in isolated children:
+    the first item that kills its child raises WorkerCrash - or, when `on_crash(item, status)` is given, gets that
+    value as its result and the others go on."""
     global _pool
     items = list(items)
     if len(items) < 24:
+        if on_crash is not None:
+            return _isolated_map(fn, items, on_crash)
         return [fn(x) for x in items]
     from concurrent.futures.process import BrokenProcessPool
     try:
@@ -305,10 +310,19 @@ def pmap(fn, items, chunksize=None):
         except Exception:  # noqa: BLE001
             pass
         _pool = None
-        return _isolated_map(fn, items)
+        return _isolated_map(fn, items, on_crash)
 
 
-def _isolated_map(fn, items):
+def isolated_call(fn, item):
+    """fn(item) in a forked child: -> ("ok", value) or ("crashed", status)."""
+    marker = object()
+    out = _isolated_map(fn, [item], lambda it, st: (marker, st))
+    if isinstance(out[0], tuple) and len(out[0]) == 2 and out[0][0] is marker:
+        return "crashed", out[0][1]
+    return "ok", out[0]
+
+
+def _isolated_map(fn, items, on_crash=None):
     """After a worker died: the items again, in forked children that report item by item, so that the item which
     kills the interpreter is identified (-> WorkerCrash) -- or, when nothing dies this time, the results."""
     import pickle
@@ -319,10 +333,8 @@ def _isolated_map(fn, items):
     nproc = min(16, os.cpu_count() or 1)
     sel = selectors.DefaultSelector()
     state = {}
-    for k in range(nproc):
-        idxs = list(range(k, n, nproc))
-        if not idxs:
-            continue
+
+    def spawn(idxs):
         r, w = os.pipe()
         pid = os.fork()
         if pid == 0:
@@ -344,6 +356,11 @@ def _isolated_map(fn, items):
         os.close(w)
         state[r] = {"pid": pid, "idxs": idxs, "done": 0, "buf": b""}
         sel.register(r, selectors.EVENT_READ)
+
+    for k in range(nproc):
+        idxs = list(range(k, n, nproc))
+        if idxs:
+            spawn(idxs)
     crash = None
     while state:
         for key, _ in sel.select():
@@ -366,10 +383,18 @@ def _isolated_map(fn, items):
             sel.unregister(r)
             os.close(r)
             _, status = os.waitpid(st["pid"], 0)
-            if st["done"] < len(st["idxs"]) and crash is None:
-                sig = os.WTERMSIG(status) if os.WIFSIGNALED(status) else None
-                crash = (st["idxs"][st["done"]], f"signal {sig}" if sig else f"exit status {status}")
             del state[r]
+            if st["done"] < len(st["idxs"]):
+                sig = os.WTERMSIG(status) if os.WIFSIGNALED(status) else None
+                what = f"signal {sig}" if sig else f"exit status {status}"
+                bad = st["idxs"][st["done"]]
+                if on_crash is not None:
+                    out[bad] = on_crash(items[bad], what)
+                    rest = st["idxs"][st["done"] + 1:]
+                    if rest:
+                        spawn(rest)
+                elif crash is None:
+                    crash = (bad, what)
     if crash:
         raise WorkerCrash(items[crash[0]], crash[1])
     return out
